@@ -221,6 +221,24 @@ theorem nep17Transfer_eq (t : Tok) (e : Env) (l : Ledger) (src dst : Nat) (amt :
           cases callerZero <;> cases fromEqCaller <;> cases witOk <;> cases b1 <;> cases b2 <;>
             simp [he, he', tpreOutcome, hu, hu2]
 
+/-- ProtocolConfiguration.GetCommitteeSize / GetNumOfCNs (config/protocol_config.go:196-201, 217-222) for a
+configuration without CommitteeHistory / ValidatorsHistory (the static sizes of the model's `Env`): the committee
+size is the number of standby keys and the validators count is `ValidatorsCount`, at every height.  With the lines
+131-136 of ProtocolConfiguration.Validate (StandbyCommittee not empty, at least ValidatorsCount keys) this gives
+`csize ≠ 0`, `csize ≤ standby.length` and `vcount ≤ csize` of `EnvOK`; Validate does NOT check that the standby keys
+are pairwise different. -/
+theorem cfgCommitteeSize_static (height nStandby best : Int) :
+    GoFuncs.cfgGetCommitteeSize height 0 nStandby best = nStandby := by
+  unfold GoFuncs.cfgGetCommitteeSize; simp
+
+theorem cfgNumOfCNs_static (height vcount best : Int) :
+    GoFuncs.cfgGetNumOfCNs height 0 vcount best = vcount := by
+  unfold GoFuncs.cfgGetNumOfCNs; simp
+
+-- non-vacuity: with a history the getters follow the history instead
+example : GoFuncs.cfgGetCommitteeSize 7 0 21 4 = 21 ∧ GoFuncs.cfgGetCommitteeSize 7 2 21 4 = 4 ∧
+    GoFuncs.cfgGetNumOfCNs 7 0 7 3 = 7 := by decide
+
 -- non-vacuity: a debit of 7 from a balance of 5 fails; a debit of exactly 5 sets the item to nil; a zero amount with a
 -- required balance above the balance fails
 example : (GoFuncs.gasIncreaseBalance 50 5 false (-1) false 0 (-1) (-1) 99 0).2.1 = "err" ∧
